@@ -208,6 +208,22 @@ def scheme_event(s, tid, limit=8000):
                 pass
             if hasattr(m, "reset_state"):
                 m.reset_state()
+    # all labels at once as the rows of a batch (two symbols per row: the label and its complement), given contiguously, as the dense transposed
+    # view of a bit-major buffer and as a strided view: the first symbol of row L is the point of label L in every form
+    if modidx and s.kind == "memoryless":
+        from .core import noncontiguous, transposed_view
+        rowsb = [[(L >> (s.b - 1 - i)) & 1 for i in range(s.b)] + [1 - ((L >> (s.b - 1 - i)) & 1) for i in range(s.b)] for L in range(2 ** s.b)]
+        T_ = torch.tensor(rowsb, dtype=torch.float32)
+        for form, Xf in (("batched", T_), ("transposed view", transposed_view(T_)), ("strided view", noncontiguous(T_))):
+            try:
+                yb = m(Xf).reshape(len(rowsb), -1)
+            except Exception:
+                continue
+            for L in range(len(rowsb)):
+                ib = nearest_index(complex(yb[L, 0]), pts) + 1
+                if modidx[L] > 0 and ib != modidx[L]:
+                    modidx[L] = ib
+                    int_diffs.append(L)
     # a result handed out earlier must still be the point it was when the later calls are over (no buffer shared between calls)
     for L, y in enumerate(held):
         if y is not None and modidx[L] > 0:
